@@ -35,7 +35,9 @@ type Op struct {
 	// FileSys behaviour injected during this operation:
 	// CtxDone: the operation is called with a context that is already cancelled (a request that
 	// was flushed or timed out before the session got to it); the mock ignores contexts
-	CtxDone bool   `json:",omitempty"`
+	CtxDone bool `json:",omitempty"`
+	// FaultPH: the failing open/opendir/create returns non-nil placeholder values next to its error
+	FaultPH bool   `json:",omitempty"`
 	Fault   string `json:",omitempty"` // name of the mock call to fail: attach walk open opendir create read write stat wstat clunk remove
 	Partial int    `json:",omitempty"` // walk: the file system finds only this many elements
 }
@@ -86,6 +88,7 @@ type Env struct {
 	EverBound   map[int]bool
 	Calls       []mockfs.Call // mock calls of the current op
 	curFault    string
+	curPH       bool
 	curPart     int
 	faultUsed   bool
 	Trace       []string
@@ -106,7 +109,7 @@ func (e *Env) hook(c *mockfs.Call) *mockfs.Fault {
 	e.Calls = append(e.Calls, *c)
 	if e.curFault != "" && !e.faultUsed && c.Op == e.curFault {
 		e.faultUsed = true
-		return &mockfs.Fault{Err: mockfs.ErrInjected}
+		return &mockfs.Fault{Err: mockfs.ErrInjected, WithPlaceholder: e.curPH}
 	}
 	if c.Op == "walk" && e.curPart > 0 {
 		return &mockfs.Fault{Partial: e.curPart}
@@ -174,6 +177,9 @@ func (e *Env) call(op Op) (res result, hung bool) {
 			r.dir, r.err = s.Stat(ctx, p9p.Fid(op.Fid))
 		case "wstat":
 			d := p9p.Dir{Mode: uint32(op.Perm), Length: ^uint64(0)}
+			if op.Perm == ^uint32(0) {
+				d = SyncDir()
+			}
 			r.err = s.WStat(ctx, p9p.Fid(op.Fid), d)
 		case "clunk":
 			r.err = s.Clunk(ctx, p9p.Fid(op.Fid))
@@ -503,6 +509,7 @@ func (e *Env) Step(op Op) (violation string, hung bool) {
 	idBefore := e.FS.MaxHandleID()
 	e.Calls = nil
 	e.curFault, e.curPart, e.faultUsed = op.Fault, op.Partial, false
+	e.curPH = op.FaultPH
 	var parentH *mockfs.Handle
 	if x.lenient {
 		if tab, err := e.Table(); err == nil {
@@ -751,6 +758,7 @@ func (e *Env) stepTolerant(op Op) (string, bool) {
 	idBefore := e.FS.MaxHandleID()
 	e.Calls = nil
 	e.curFault, e.curPart, e.faultUsed = op.Fault, op.Partial, false
+	e.curPH = op.FaultPH
 	if x.lenient {
 		if tab, err := e.Table(); err == nil {
 			if h := tab[op.Fid].H; h != nil {
@@ -787,3 +795,10 @@ func (e *Env) stepTolerant(op Op) (string, bool) {
 
 // ValidNames reports whether a walk name list is in the normal form the session accepts.
 func ValidNames(names []string) bool { return validNames(names) }
+
+// SyncDir is the stat record in which every field says "don't touch" (all ones on the wire,
+// empty strings): wstat(5)'s request to commit the file to stable storage.
+func SyncDir() p9p.Dir {
+	return p9p.Dir{Type: ^uint16(0), Dev: ^uint32(0), Qid: p9p.Qid{Type: 0xFF, Version: ^uint32(0), Path: ^uint64(0)}, Mode: ^uint32(0),
+		AccessTime: time.Unix(0xFFFFFFFF, 0), ModTime: time.Unix(0xFFFFFFFF, 0), Length: ^uint64(0)}
+}
